@@ -5,6 +5,7 @@ import (
 	"runtime"
 	"strings"
 	"sync"
+	"sync/atomic"
 	"time"
 
 	"github.com/cnotch/ipchub/av/format/rtp"
@@ -505,6 +506,63 @@ func ScBacklogStap(hevc bool) Outcome {
 		if c.QueueLen > 1000+gop+0 {
 			return Outcome{Name: name, Fail: fmt.Sprintf("backlog of a stalled consumer is %d packets (> 1000 + GOP %d): key frames sent as STAP(SPS,PPS,IDR) are never reported as key frames, so dropping never starts", c.QueueLen, gop)}
 		}
+	}
+	return Outcome{Name: name}
+}
+
+// ScCloseDuringJoin: the joiner is parked after its status check (inside startConsume, before it
+// registers) while the stream is closed; then it continues.  Property (C03): a consumer that is
+// attaching at the very moment the stream ends is closed too, and the count is zero.
+func ScCloseDuringJoin(flvTable bool, hevc bool) Outcome {
+	name := "close-during-join"
+	if flvTable {
+		name = "close-during-join-flv"
+	}
+	g := InstallGates()
+	defer g.Uninstall()
+	w := NewWorld(hevc, true)
+	w.Publish(KSps, 2)
+	gt := g.Arm("stream.join.snapshotted", 0)
+	r := w.NewRec()
+	fr := &FRec{gate: make(chan struct{}, 1), world: &FlvWorld{sums: map[uint32]uint64{}, typ: map[uint32]byte{}}}
+	closeCalls := func() int {
+		if flvTable {
+			return int(atomic.LoadInt32(&fr.closes))
+		}
+		return r.CloseCalls()
+	}
+	joined := make(chan struct{})
+	go func() {
+		if flvTable {
+			fr.CID = w.S.StartConsume(fr, media.FLVPacket, "verif")
+		} else {
+			w.Join(r, true)
+		}
+		close(joined)
+	}()
+	if !gt.WaitReached(gateWait) {
+		w.S.Close()
+		return Outcome{Name: name, Skipped: "stream.join.snapshotted not reached"}
+	}
+	closed := make(chan struct{})
+	go func() { w.S.Close(); close(closed) }()
+	select {
+	case <-closed: // a closer that does not wait for the attaching consumer
+	case <-time.After(300 * time.Millisecond):
+	}
+	gt.Release()
+	<-joined
+	<-closed
+	ok := Eventually(5*time.Second, func() bool { return closeCalls() >= 1 })
+	time.Sleep(2 * time.Millisecond)
+	if !ok {
+		return Outcome{Name: name, Fail: "a consumer attaching while the stream is being closed is never closed (left registered on a dead stream)", Detail: w.Observe()}
+	}
+	if n := closeCalls(); n != 1 {
+		return Outcome{Name: name, Fail: fmt.Sprintf("Consumer.Close called %d times", n)}
+	}
+	if c := w.S.ConsumerCount(); c != 0 {
+		return Outcome{Name: name, Fail: fmt.Sprintf("consumer count %d after the stream was closed", c), Detail: w.Observe()}
 	}
 	return Outcome{Name: name}
 }
